@@ -498,7 +498,6 @@ def explore(ctx):
 
 
 def search(ctx, broken):
-    ctx.tier = 'thorough'
     explore(ctx)
 
 
